@@ -183,6 +183,8 @@ pub fn spawn_local<F>(future: F) -> JoinHandle<F::Output>
 where
     F: Future + 'static,
 {
+    #[cfg(feature = "verif")]
+    let future = crate::verif::controlled(None, future);
     let signal = Arc::new(AtomicBool::new(false));
     let inner_signal = signal.clone();
     let (abort_handle, abort_registration) = AbortHandle::new_pair();
@@ -206,6 +208,8 @@ where
     F: Future + Send + 'static,
     F::Output: Send + 'static,
 {
+    #[cfg(feature = "verif")]
+    let future = crate::verif::controlled(name, future);
     let (abort_handle, abort_registration) = AbortHandle::new_pair();
     if let Some(name) = name {
         let signal = Arc::new(AtomicBool::new(false));
